@@ -98,10 +98,19 @@ SET_VALUE = Contract(
     modifies=("heap",), trusted=True, virtual="_set_value",
     note="one container store; a store that raises leaves the data as before (assumption on user containers)")
 
+def _deps_out_has(v, xx):
+    return z3.And(z3.Not(v.is_none), v.value.has(xx))
+
+
 GET_DEPS = Contract(
-    module="xdeps/refs.py", qualname="BaseRef._get_dependencies", params=dict(self=TV), result=TSet,
-    ensures=[("locs", lambda o, n, r: r.arr == locs_of(o.self.t))],
-    trusted=True, virtual="_get_dependencies", note="proved per override under C05 (result == locs(self))")
+    module="xdeps/refs.py", qualname="BaseRef._get_dependencies", params=dict(self=TV, out=TOpt(TSet)), result=TSet,
+    ensures=[("locs", lambda o, n, r: z3.ForAll([x], r.has(x) == z3.Or(_deps_out_has(o.out, x), z3.Select(locs_of(o.self.t), x)),
+                                                patterns=[r.has(x)])),
+             ("without-accumulator: exactly locs(self)", lambda o, n, r: z3.Implies(o.out.is_none, r.arr == locs_of(o.self.t))),
+             ("accumulator-updated-in-place", lambda o, n, r: z3.Implies(z3.Not(o.out.is_none), z3.And(
+                 z3.Not(n.out.is_none), n.out.value.arr == r.arr)))],
+    modifies=("out",), defaults=dict(out=lambda: PyNone()),
+    trusted=True, virtual="_get_dependencies", note="proved per override under C05 (result == out U locs(self); out updated in place)")
 
 TASK_RUN = Contract(
     module=M, qualname="Task.run", params=dict(self=TTask), ghost=dict(heap=TV, runs=TSeq(TTask)),
@@ -134,8 +143,8 @@ EXPRTASK_INIT = Contract(
     module=M, qualname="ExprTask.__init__", params=dict(self=TExprTaskRec, target=TV, expr=TV),
     ensures=[("taskid", lambda o, n, r: n.self.taskid.t == o.target.t),
              ("expr", lambda o, n, r: n.self.expr.t == o.expr.t),
-             ("targets=locs(target)", lambda o, n, r: n.self.targets.arr == locs_of(o.target.t)),
-             ("dependencies=locs(expr)", lambda o, n, r: n.self.dependencies.arr == locs_of(o.expr.t))],
+             ("targets=locs(target)", lambda o, n, r: z3.ForAll([x], n.self.targets.has(x) == z3.Select(locs_of(o.target.t), x))),
+             ("dependencies=locs(expr)", lambda o, n, r: z3.ForAll([x], n.self.dependencies.has(x) == z3.Select(locs_of(o.expr.t), x)))],
     modifies=("self",), min_obligations=4,
     extra=dict(engine=TasksEngine))
 
@@ -391,3 +400,98 @@ COPY_EXPR_FROM = Contract(
     note="C17/C03 for copy_expr_from: the receiver's state is reached only through self.load(...) (contract LOAD) "
          "and a read of self.containers; decided on the AST, site by site")
 CONTRACTS += [COPY_EXPR_FROM]
+
+
+# ----------------------------------------------------------------------------- mk_fun: structure of the generated source   (C13)
+from pyvc.tasks_engine import SourceGenEngine, TKwargs, kw_key, kw_val, kw_n, str_join, keys_join, fstring_fn      # noqa: E402
+
+F_HEAD = fstring_fn("def {}({}):", 2)
+F_ASSIGN = fstring_fn("  {} = {}", 2)
+F_TASK = fstring_fn("  {}", 1)
+NL = z3.Const("str:'\\n'", V)
+COMMA = z3.Const("str:','", V)
+
+
+def start_union(kw, upto):
+    """x is a start location <=> x in locs(ref_j) for some argument j < upto  (like set_value: the location and its enclosing containers)"""
+    return lambda v: z3.Exists([j], z3.And(0 <= j, j < upto, z3.Select(locs_of(kw_val(kw, j)), v)))
+
+
+def _mk_inv0():
+    def g(L):
+        kw = L.old.kwargs.t
+        return z3.ForAll([x], L.cur.start.has(x) == start_union(kw, L.k)(x), patterns=[L.cur.start.has(x)])
+    return [("start=locs-of-the-arguments-so-far", g), ("index", lambda L: z3.And(0 <= L.k, L.k <= L.n, L.n == kw_n(L.old.kwargs.t)))]
+
+
+def _mk_lines(fdef, o, upto_args, upto_tasks, tasks):
+    """lines by ABSOLUTE index (patterns without arithmetic): 0 header, 1..nk argument stores, then the task lines"""
+    kw = o.kwargs.t
+    nk = kw_n(kw)
+    return z3.And(
+        fdef.at(0) == F_HEAD(o.name.t, keys_join(COMMA, kw)),
+        z3.ForAll([i], z3.Implies(z3.And(1 <= i, i < 1 + upto_args), fdef.at(i) == F_ASSIGN(kw_val(kw, i - 1), kw_key(kw, i - 1))),
+                  patterns=[fdef.at(i)]),
+        z3.ForAll([i], z3.Implies(z3.And(1 + nk <= i, i < 1 + nk + upto_tasks), fdef.at(i) == F_TASK(tasks.at(i - 1 - nk))),
+                  patterns=[fdef.at(i)]) if tasks is not None else z3.BoolVal(True))
+
+
+def _mk_inv1():
+    def g(L):
+        return z3.And(L.cur.fdef.n == 1 + L.k, _mk_lines(L.cur.fdef, L.old, L.k, 0, None))
+    return [("header-and-one-assignment-line-per-argument-so-far", g), ("index", lambda L: z3.And(0 <= L.k, L.k <= L.n, L.n == kw_n(L.old.kwargs.t)))]
+
+
+def _mk_inv2():
+    def g(L):
+        nk = kw_n(L.old.kwargs.t)
+        return z3.And(L.cur.fdef.n == 1 + nk + L.k, _mk_lines(L.cur.fdef, L.old, nk, L.k, L.cur.tasks))
+    return [("one-line-per-scheduled-task-so-far-in-order", g), ("index", lambda L: z3.And(0 <= L.k, L.k <= L.n, L.n == L.cur.tasks.n))]
+
+
+def _mk_topo(lb):
+    def f(o, n, r):
+        return dict(topo_post_counts(o.self, start_of(o.self, n.startset), n.ids, n.stack, n.pos, PySet(o.self.tasks.dom)))[lb]
+    return ("schedule:" + lb, f)
+
+
+def _mk_start(o, n, r):
+    return z3.ForAll([x], n.startset.has(x) == start_union(o.kwargs.t, kw_n(o.kwargs.t))(x), patterns=[n.startset.has(x)])
+
+
+def _mk_text_parts():
+    def joined(o, n, r):
+        return r.t == str_join(NL, n.lines.n, n.lines.arr)
+
+    def count(o, n, r):
+        return n.lines.n == 1 + kw_n(o.kwargs.t) + n.ids.n
+
+    def head_and_args(o, n, r):
+        return _mk_lines(n.lines, o, kw_n(o.kwargs.t), 0, None)
+
+    def tasks_(o, n, r):
+        nk = kw_n(o.kwargs.t)
+        L = n.lines
+        return z3.ForAll([i], z3.Implies(z3.And(1 + nk <= i, i < L.n), L.at(i) == F_TASK(o.self.tasks.get(n.ids.at(i - 1 - nk)))),
+                         patterns=[L.at(i)])
+    return [("text-is-the-lines-joined-by-newline", joined), ("line-count = 1 + arguments + scheduled tasks", count),
+            ("header-then-one `ref = arg` line-per-argument-in-order", head_and_args), ("then-one-line-per-scheduled-task-in-order", tasks_)]
+
+
+MK_FUN = Contract(
+    module=M, qualname="Manager.mk_fun", params=dict(self=TMgr, name=TV, kwargs=TKwargs),
+    ghost=dict(pos=TCount, stack=TDeque(TV), ids=TSeq(TV), lines=TSeq(TV), startset=TSet), result=TV,
+    requires=[(lb, (lambda lb_: lambda s: dict(idx_wf(s.self))[lb_])(lb)) for lb in LABELS],
+    axioms=[lambda s: z3.And(*card_axioms())],
+    ensures=_mk_text_parts() + [("start = the argument locations and their enclosing containers", _mk_start)] + [_mk_topo(lb) for lb in TOPO_LABELS],
+    modifies=("pos", "stack", "ids", "lines", "startset"),
+    loops={0: LoopSpec(anchor="kwargs.values()", invariants=_mk_inv0()),
+           1: LoopSpec(anchor="kwargs.items()", invariants=_mk_inv1()),
+           2: LoopSpec(anchor="tasks", invariants=_mk_inv2())},
+    min_obligations=15,
+    extra=dict(engine=SourceGenEngine, ghost_writeback={"pos": "pos", "stack": "stack", "ids": "ids"},
+               ghost_after={"fdef = '\\n'.join(fdef)": lambda ns, st: st.env.__setitem__("lines", st.env["@joined_lines"]),
+                            "tasks = self.find_tasks(start)": lambda ns, st: st.env.__setitem__("startset", st.env["start"])}),
+    note="C13 (second sentence): the generated source lists, after the argument stores, exactly the tasks set_value would run for these "
+         "locations (start = the argument locations and their enclosing containers), once each, in dependency order")
+CONTRACTS += [MK_FUN]
